@@ -43,6 +43,47 @@ def net_conformance(ck, name, count, seeds_per, salt, topos=NB.TOPOS):
                        sig_of=lambda t, v: {'topo': t['sc']['topo'], 'flavour': t['sc'].get('flavour', 'sync')})
 
 
+def net_l2(ck, name, num, topos=('single', 'ens', 'switch', 'seq'), traps=()):
+    """L2 (spec -> code): TLC behaviours of ServletNet (simulation + trap goals) steer the real callers, workers, ensemble /
+    switch helper threads and the gather thread; the steered executions are validated by TLC like any other."""
+    items, nbeh = [], 0
+    for topo in topos:
+        for ff in ((True, False) if topo == 'ens' else (True,)):
+            consts = dict(R=2, Topo=topo, FailFast=ff)
+            cfg = net_cfg(2, topo, failfast=ff)
+            res, behs = tlc.simulate('ServletNet', cfg, num=num, depth=90, seed=5 + ck.seed)
+            behs = list(behs)
+            for goal in traps:
+                if (goal == 'Trap_BatchOfTwo') == (topo == 'seq') and (goal != 'Trap_FailFastLate' or (topo == 'ens' and ff)):
+                    behs.append(ck.trap(goal, 'ServletNet', net_cfg(2, topo, failfast=ff, invariants=[goal])))
+            nbeh += len(behs)
+            for b in behs:
+                it = NB.behaviour_to_item(b, consts)
+                if it:
+                    items.append({'id': len(items) + 1, 'seed': len(items), **it})
+    out = ck.run_binder('servletnet', items, timeout=1200)
+    ck.evaluations += int(out.get('n_exec', 0))
+    for h in out.get('hangs', []):
+        ck.violation({'leg': 'L2', 'name': name, 'kind': 'hang-or-crash', 'status': h['status'], 'detail': h.get('detail'),
+                      'waitmap': h.get('waitmap'), 'exc': h.get('exc'), 'thread_errors': h.get('thread_errors'),
+                      'item': {'sc': h['sc'], 'seed': h['seed']}, 'events': h['ev'][-80:]},
+                     sig={'leg': 'L2', 'kind': 'hang', 'status': h['status'], 'topo': h['sc']['topo']})
+    trs = out.get('traces', [])
+    groups = collections.defaultdict(list)
+    for t in trs:
+        groups[(t['p']['R'], t['p']['topo'], t['p']['failfast'])].append(t)
+    before = ck.traces
+    ck.validate_groups(name, 'ServletNetTrace',
+                       [(tlc.cfg_text(spec='TraceSpec', constants=dict(R=R, Topo=topo, FailFast=ff, FreshUid=True, NUids=64),
+                                      constraint='Progress', postcondition='Report', deadlock=False), g)
+                        for (R, topo, ff), g in sorted(groups.items())],
+                       sig_of=lambda t, v: {'topo': t['sc']['topo'], 'leg': 'L2'})
+    ck.replays += ck.traces - before
+    ck.traces = before
+    ck.legs[-1].update(leg='L2', behaviours=nbeh, replayed=len(trs), exact=sum(1 for t in trs if t['l2']['exact']),
+                       steps=sum(t['l2']['steps'] for t in trs), followed=sum(t['l2']['followed'] for t in trs))
+
+
 def net_process_leg(ck, name, count, salt):
     """L3 on REAL worker processes (and mixed process / thread trees): concurrent callers + one stream; what every caller
     received is validated against the outcome rules of ServletNet (ServletOutcomeTrace)."""
@@ -85,6 +126,8 @@ def c02(ck, replay=None):
                  SRV.core_cfg(3, 2, 'AllMixes', ['NoLostResponse'], ledger_first=False), 'invariant', 'NoLostResponse')
     net_conformance(ck, 'Server over thread servlet trees (single/sequential+batch/ensemble/switch) under detsched',
                     250 if thorough else 60, 8 if thorough else 4, salt=67)
+    net_l2(ck, 'TLC behaviours steered into Server over thread servlet trees (callers, workers, helper threads, gather)',
+           60 if thorough else 12, traps=('Trap_BatchOfTwo', 'Trap_FailFastLate'))
     net_process_leg(ck, 'Server over PROCESS (and mixed) servlet trees: concurrent callers + stream, outcomes vs. ServletNet',
                     240 if thorough else 32, salt=79)
     ck.assumptions += ['inside of the tree observed for thread servlets only (detsched); process servlet trees: real processes, '
